@@ -248,10 +248,14 @@ reg('C16', 'model_checking',
     'x with/without ghost inlet. After every transition all three arrays '
     'are compared, as multisets of whole particle records, with a '
     'bookkeeping reference model, and fluid count = initial + entered - '
-    'left is asserted.',
-    'Trusted: the bookkeeping model; states with a particle exactly on an '
+    'left is asserted. In addition each of the five shipped families is '
+    'driven through its SimpleInletOutlet manager: a 2-D channel with one '
+    'inlet and two outlets, the update objects (the family\'s own Inlet / '
+    'Outlet classes) taken from get_inlet_outlet(), every history of <=2 '
+    '(thorough 3) displacements out of 6 compared with a bookkeeping model.',
+    'Trusted: the bookkeeping models; states with a particle exactly on an '
     'interface plane are not generated (either outcome allowed). The '
-    'SimpleInletOutlet managers around these classes are not driven.',
+    'equations and steppers the managers add are not part of this check.',
     'explicit-state BFS over operation histories of the real objects '
     'against a reference model', 'E2-history-bfs')
 
